@@ -157,3 +157,67 @@ def compiled_with_own_config(ctx, rule):
                   f"config loaded at events {loads[:1]}..{loads[-1:]}, regex produced at {prod}, constructor ends at {mark}",
                   "the constructor loads the rule's config and then produces the regex, once; matching reuses that regex")
     return n
+
+
+def flags_end_to_end(ctx, rule, patterns):
+    """Yaml2Regex(<rule file>).produce_regex(), interpreted from the constructor on in a fresh process, gives for a
+    rule whose config section sets the two full-match flags exactly the regex the compile pipeline gives for the same
+    pattern under those flag values (the templates the obligations judge): the flags in force while the rule's nodes
+    are built and rendered are the rule's own."""
+    from ..matchflow import load_file_summary
+    from ..models import lift_skeleton, make_interp
+    from ..values import NONE, Hole, Obj, Str
+    y2r = ctx.p.find_class("Yaml2Regex")
+    Id = make_interp(ctx.p)
+    Ie = make_interp(ctx.p, {"Yaml2Regex.load_file": load_file_summary})
+    n = 0
+    for label, pattern in patterns:
+        def direct(I, pattern=pattern):
+            so = Obj(y2r, {"loaded_file": lift_skeleton(I, {"pattern": pattern}), "macros_from_terminal_filepath": NONE})
+            pats = I.call_func(y2r.find_method("_get_pattern"), [], {}, so, None, None)
+            tree = I.call_func(y2r.find_method("_generate_rule_tree"), [], {"patterns": pats}, so, None, None)
+            return I.call_func(tree.cls.find_method("get_regex"), [], {}, tree, None, None)
+        by_flags = []
+        for p in Id.explore(direct):
+            fl = (p.assumed(("truth", "b", "cfg[MnemonicsFullMatch]")), p.assumed(("truth", "b", "cfg[OperandsFullMatch]")))
+            by_flags.append((fl, p.kind, Id.expr_of(p.value) if p.kind == "return" else repr(p.exc)[:80]))
+        for mn in (False, True):
+            for op in (False, True):
+                want = {(k, v) for fl, k, v in by_flags if fl[0] in (None, mn) and fl[1] in (None, op)}
+                doc = {"config": {"mnemonics-full-match": mn, "operands-full-match": op}, "pattern": pattern}
+
+                def e2e(I, doc=doc):
+                    I.run.user["docs"] = {"<P0>": doc}
+                    y = I.construct(y2r, [Str((Hole("P0", "path", True),))], {}, None, None)
+                    return I.call_func(y2r.find_method("produce_regex"), [], {}, y, None, None)
+                got = {(p.kind, Ie.expr_of(p.value) if p.kind == "return" else repr(p.exc)[:80]) for p in Ie.explore(e2e)}
+                n += 1
+                diff = sorted(got ^ want)
+                ctx.check(not diff and bool(got), rule, f"Yaml2Regex(...).produce_regex() [{label}; mnemonics-full-match={mn}, operands-full-match={op}]",
+                          (str(diff[0]) if diff else "no result")[:300],
+                          "a rule loaded from its file compiles under the full-match flags of its own config section")
+    return n
+
+
+def assembly_text_unmodified(ctx, rule):
+    """-s route: what the parser receives is open(<input>).read() in text mode (universal newlines), nothing decoded or
+    rewritten by hand in between"""
+    from ..matchflow import match_interp, run_sequence
+    I = match_interp(ctx.p)
+    runs = run_sequence(I, [{"config": {}, "file_type": "assembly"}])
+    bad = set()
+    for path, facts, results in runs:
+        for text, cons, parser in path.run.user.get("parse_calls", []):
+            ex = I.expr_of(text)
+            if not (ex.startswith("open(") and ex.endswith(".read()") and "INPUT_0" in ex):
+                bad.add(ex[:80])
+        opens = [e for e in path.events if e.kind == "extern_call" and e.name in ("open", "builtins.open", "io.open")]
+        for e in opens:
+            mode = e.kwargs.get("mode", e.args[1] if len(e.args) > 1 else None)
+            mt = I.expr_of(mode) if mode is not None else "'r'"
+            if "b" in mt.strip("'\""):
+                bad.add(f"open(..., mode={mt})")
+            if "newline" in e.kwargs:
+                bad.add("open(..., newline=...)")
+    ctx.check(not bad and bool(runs), rule, "assembly route", ";".join(sorted(bad))[:200],
+              "the listing's text reaches the parser as read in text mode (line ends translated), unmodified")
